@@ -1,7 +1,7 @@
 (* C18 — proofs, part 3: anomaly detectors over the history of rounds (the gate), and the
    theorem over whole histories. *)
 From Coq Require Import String List ZArith Bool Lia.
-From Verif Require Import C18.Model C18.Spec C18.Proofs_Pass C18.Proofs_Round.
+From Verif Require Import C18.Model C18.Spec C18.Proofs_Vec C18.Proofs_Pass C18.Proofs_Round.
 Import ListNotations.
 Open Scope Z_scope.
 
@@ -20,14 +20,31 @@ Proof.
   pose proof (count_src_nonneg prod x h). lia.
 Qed.
 
+Lemma streak_src_nonneg prod x h : 0 <= streak_src prod x h.
+Proof. induction h as [|t h IH]; cbn [streak_src]; [lia|]. destruct (was_src prod x t); lia. Qed.
+Lemma count_src_src prod x t h : was_src prod x t = true -> count_src prod x (t :: h) = 1 + count_src prod x h.
+Proof. intros H. rewrite count_src_cons, H. reflexivity. Qed.
+Lemma streak_src_src prod x t h : was_src prod x t = true -> streak_src prod x (t :: h) = 1 + streak_src prod x h.
+Proof. intros H. cbn [streak_src]. rewrite H. reflexivity. Qed.
+
+(* Everything below is proved for an arbitrary measure [mu] of "how long has node x been a
+   source": non-negative and growing by one in a round in which x is a source. It is
+   instantiated with [count_src] (all earlier source rounds; holds for the code as it is) and
+   with [streak_src] (the immediately preceding source rounds; holds for the repaired variant). *)
+Section Measure.
+Variable c : cfg.
+Variable mu : bool -> Z -> list (list row) -> Z.
+Hypothesis mu_nonneg : forall prod x h, 0 <= mu prod x h.
+Hypothesis mu_src : forall prod x t h, was_src prod x t = true -> mu prod x (t :: h) = 1 + mu prod x h.
+
 (* ---------------------------------------------------------------- one detector *)
 (* the detector of node x (node cache or prod cache) against the rounds seen so far:
    its abnormality counter never exceeds the number of rounds in which the node was a source,
    and it is in the anomaly state only after more than K such rounds *)
-Definition det_inv (c : cfg) (prod : bool) (hist : list (list row)) (x : Z) (d : det) : Prop :=
+Definition det_inv (prod : bool) (hist : list (list row)) (x : Z) (d : det) : Prop :=
   dK d = cK c /\
-  (dst d = false -> dA d <= count_src prod x hist) /\
-  (dst d = true -> cK c + 1 <= count_src prod x hist).
+  (dst d = false -> dA d <= mu prod x hist) /\
+  (dst d = true -> cK c + 1 <= mu prod x hist).
 
 Ltac det_crush :=
   repeat match goal with
@@ -35,26 +52,19 @@ Ltac det_crush :=
          | H : context [if ?b then _ else _] |- _ => destruct b eqn:?
          end; cbn [dK dKn dst dA dN andb] in *; try discriminate; try lia; try tauto.
 
-Lemma det_inv_mono c prod h t x d : det_inv c prod h x d -> det_inv c prod (t :: h) x d.
+Lemma set_ok_inv prod h x d : det_inv prod h x d -> det_inv prod h x (set_ok d).
 Proof.
-  unfold det_inv. rewrite count_src_cons. intros [H1 [H2 H3]].
-  split; [exact H1|]. split; intros H; [specialize (H2 H)|specialize (H3 H)];
-    destruct (was_src prod x t); lia.
-Qed.
-
-Lemma set_ok_inv c prod h x d : det_inv c prod h x d -> det_inv c prod h x (set_ok d).
-Proof.
-  unfold det_inv, set_ok. pose proof (count_src_nonneg prod x h). destruct d as [K Kn st A N].
+  unfold det_inv, set_ok. pose proof (mu_nonneg prod x h). destruct d as [K Kn st A N].
   cbn [dK dKn dst dA dN]. intros [H1 [H2 H3]]. destruct st; cbn [dK dKn dst dA dN]; [|tauto].
   split; [exact H1|]. split; intros; [lia|discriminate].
 Qed.
-Lemma cur_inv c prod h x d : det_inv c prod h x d -> det_inv c prod h x (cur d).
+Lemma cur_inv prod h x d : det_inv prod h x d -> det_inv prod h x (cur d).
 Proof. unfold cur. intros H. destruct (dst d && (dKn d <? dN d)); [apply set_ok_inv|]; exact H. Qed.
 
-Lemma mark_norm_inv c prod h x d : det_inv c prod h x d -> det_inv c prod h x (mark_norm d).
+Lemma mark_norm_inv prod h x d : det_inv prod h x d -> det_inv prod h x (mark_norm d).
 Proof.
-  intros H. apply (cur_inv c prod h x) in H. unfold mark_norm. apply cur_inv.
-  set (d' := cur d) in *. pose proof (count_src_nonneg prod x h).
+  intros H. apply (cur_inv prod h x) in H. unfold mark_norm. apply cur_inv.
+  set (d' := cur d) in *. pose proof (mu_nonneg prod x h).
   destruct d' as [K Kn st A N]. unfold det_inv in *. cbn [dK dKn dst dA dN] in *.
   destruct H as [H1 [H2 H3]]. destruct st; cbn [dK dKn dst dA dN].
   - destruct (Kn <? N + 1); unfold set_ok; cbn [dK dKn dst dA dN].
@@ -65,33 +75,33 @@ Qed.
 
 (* Mark(false) in a round in which the node is a source; if it ends in the anomaly state the
    node has been a source in at least K earlier rounds *)
-Lemma mark_abn_inv c prod h t x d :
-  det_inv c prod h x d -> was_src prod x t = true ->
-  det_inv c prod (t :: h) x (mark_abn d) /\
-  (dst (mark_abn d) = true -> cK c <= count_src prod x h).
+Lemma mark_abn_inv prod h t x d :
+  det_inv prod h x d -> was_src prod x t = true ->
+  det_inv prod (t :: h) x (mark_abn d) /\
+  (dst (mark_abn d) = true -> cK c <= mu prod x h).
 Proof.
-  intros H Hs. apply (cur_inv c prod h x) in H. unfold mark_abn.
-  set (d' := cur d) in *. pose proof (count_src_nonneg prod x h).
+  intros H Hs. apply (cur_inv prod h x) in H. unfold mark_abn.
+  set (d' := cur d) in *. pose proof (mu_nonneg prod x h).
   destruct d' as [K Kn st A N]. unfold det_inv in H. cbn [dK dKn dst dA dN] in *.
   destruct H as [H1 [H2 H3]].
-  assert (forall e, det_inv c prod (t :: h) x e -> (dst e = true -> cK c <= count_src prod x h) ->
-                    det_inv c prod (t :: h) x (cur e) /\ (dst (cur e) = true -> cK c <= count_src prod x h)) as Hcur.
+  assert (forall e, det_inv prod (t :: h) x e -> (dst e = true -> cK c <= mu prod x h) ->
+                    det_inv prod (t :: h) x (cur e) /\ (dst (cur e) = true -> cK c <= mu prod x h)) as Hcur.
   { intros e He Hg. split; [apply cur_inv; exact He|].
     unfold cur, set_ok. destruct (dst e) eqn:Ed; cbn [andb].
     - destruct (dKn e <? dN e); cbn [dst]; [discriminate|rewrite Ed; exact Hg].
     - rewrite Ed. exact Hg. }
   destruct st; cbn [dK dKn dst dA dN].
   - apply Hcur.
-    + unfold det_inv. cbn [dK dKn dst dA dN]. rewrite count_src_cons, Hs.
+    + unfold det_inv. cbn [dK dKn dst dA dN]. rewrite (mu_src _ _ _ _ Hs).
       split; [exact H1|]. split; intros; [discriminate|]. specialize (H3 eq_refl). lia.
     + cbn [dst]. intros _. specialize (H3 eq_refl). lia.
   - specialize (H2 eq_refl). destruct (K <? A + 1) eqn:E.
     + apply Z.ltb_lt in E. unfold set_an. cbn [dK dKn dst dA dN]. apply Hcur.
-      * unfold det_inv. cbn [dK dKn dst dA dN]. rewrite count_src_cons, Hs.
+      * unfold det_inv. cbn [dK dKn dst dA dN]. rewrite (mu_src _ _ _ _ Hs).
         split; [exact H1|]. split; intros; [discriminate|lia].
       * cbn [dst]. intros _. lia.
     + apply Hcur.
-      * unfold det_inv. cbn [dK dKn dst dA dN]. rewrite count_src_cons, Hs.
+      * unfold det_inv. cbn [dK dKn dst dA dN]. rewrite (mu_src _ _ _ _ Hs).
         split; [exact H1|]. split; intros; [lia|discriminate].
       * cbn [dst]. discriminate.
 Qed.
@@ -108,15 +118,12 @@ Proof.
       * exact IH.
 Qed.
 
-Definition dmap_inv (c : cfg) (prod : bool) (h : list (list row)) (m : dmap) : Prop :=
-  forall x d, dget x m = Some d -> det_inv c prod h x d.
+Definition dmap_inv (prod : bool) (h : list (list row)) (m : dmap) : Prop :=
+  forall x d, dget x m = Some d -> det_inv prod h x d.
 
-Lemma dmap_inv_mono c prod h t m : dmap_inv c prod h m -> dmap_inv c prod (t :: h) m.
-Proof. intros H x d Hd. apply det_inv_mono. apply H. exact Hd. Qed.
-
-Lemma dupd_inv c prod h f y m :
-  (forall x d, det_inv c prod h x d -> det_inv c prod h x (f d)) ->
-  dmap_inv c prod h m -> dmap_inv c prod h (dupd f y m).
+Lemma dupd_inv prod h f y m :
+  (forall x d, det_inv prod h x d -> det_inv prod h x (f d)) ->
+  dmap_inv prod h m -> dmap_inv prod h (dupd f y m).
 Proof.
   intros Hf Hm. unfold dupd. destruct (dget y m) as [d0|] eqn:E; [|exact Hm].
   intros x d. rewrite dget_dset. destruct (y =? x) eqn:Exy.
@@ -124,20 +131,20 @@ Proof.
   - apply Hm.
 Qed.
 
-Lemma reset_nodes_inv c prod h rs : forall m, dmap_inv c prod h m -> dmap_inv c prod h (reset_nodes rs m).
+Lemma reset_nodes_inv prod h rs : forall m, dmap_inv prod h m -> dmap_inv prod h (reset_nodes rs m).
 Proof.
   unfold reset_nodes. induction rs as [|r t IH]; intros m Hm; cbn [fold_left]; [exact Hm|].
   apply IH. apply dupd_inv; [|exact Hm]. intros x d. apply set_ok_inv.
 Qed.
-Lemma mark_nodes_normal_inv c prod h rs : forall m,
-  dmap_inv c prod h m -> dmap_inv c prod h (mark_nodes_normal rs m).
+Lemma mark_nodes_normal_inv prod h rs : forall m,
+  dmap_inv prod h m -> dmap_inv prod h (mark_nodes_normal rs m).
 Proof.
   unfold mark_nodes_normal. induction rs as [|r t IH]; intros m Hm; cbn [fold_left]; [exact Hm|].
   apply IH. apply dupd_inv; [|exact Hm]. intros x d. apply mark_norm_inv.
 Qed.
 
-Lemma evict_pods_dm_inv c prod' prod h r ps : forall st dm,
-  dmap_inv c prod h dm -> dmap_inv c prod h (snd (evict_pods c prod' r ps st dm)).
+Lemma evict_pods_dm_inv prod' prod h r ps : forall st dm,
+  dmap_inv prod h dm -> dmap_inv prod h (snd (evict_pods c prod' r ps st dm)).
 Proof.
   induction ps as [|p t IH]; intros st dm Hm; cbn [evict_pods]; [exact Hm|].
   destruct (node_over prod' r st); cbn [negb snd].
@@ -149,31 +156,31 @@ Proof.
   destruct (evict_pods c prod' r t (apply_ev c (rid r) p st) dm) as [[evs st'] dm']. exact IH.
 Qed.
 
-Lemma balance_pods_dm_inv c prod' prod h tg srcs : forall st resv dm,
-  dmap_inv c prod h dm -> dmap_inv c prod h (snd (balance_pods c prod' tg srcs st resv dm)).
+Lemma balance_pods_dm_inv prod' prod h tg srcs : forall st resv dm,
+  dmap_inv prod h dm -> dmap_inv prod h (snd (balance_pods c prod' tg srcs st resv dm)).
 Proof.
   induction srcs as [|r t IH]; intros st resv dm Hm; cbn [balance_pods]; [exact Hm|].
   destruct (removable c prod' tg (r_pods prod' r) resv) as [rem resv1].
-  pose proof (evict_pods_dm_inv c prod' prod h r (sort_by pod_leb rem) st dm Hm) as H1.
+  pose proof (evict_pods_dm_inv prod' prod h r (sort_by pod_leb rem) st dm Hm) as H1.
   destruct (evict_pods c prod' r (sort_by pod_leb rem) st dm) as [[evs1 st2] dm2]. cbn [snd] in H1.
   specialize (IH st2 resv1 dm2 H1).
   destruct (balance_pods c prod' tg t st2 resv1 dm2) as [[evs2 st3] dm3]. exact IH.
 Qed.
 
-Definition dstate_inv (c : cfg) (h : list (list row)) (ds : dstate) : Prop :=
-  dmap_inv c false h (fst ds) /\ dmap_inv c true h (snd ds).
+Definition dstate_inv (h : list (list row)) (ds : dstate) : Prop :=
+  dmap_inv false h (fst ds) /\ dmap_inv true h (snd ds).
 
-Lemma efs_dm_inv c h tbl abn pabn ds :
-  dstate_inv c h ds -> dstate_inv c h (snd (evict_from_sources c tbl abn pabn ds)).
+Lemma efs_dm_inv h tbl abn pabn ds :
+  dstate_inv h ds -> dstate_inv h (snd (evict_from_sources c tbl abn pabn ds)).
 Proof.
   intros [Hn Hp]. unfold evict_from_sources.
   set (st0 := (init_umap false tbl, node_avail (dims c) tbl)).
-  assert (dmap_inv c false h (snd (if is_nil (node_targets tbl) then ([], st0, fst ds)
+  assert (dmap_inv false h (snd (if is_nil (node_targets tbl) then ([], st0, fst ds)
             else balance_pods c false (node_targets tbl) abn st0 (init_umap false tbl) (fst ds)))) as H1.
   { destruct (is_nil (node_targets tbl)); [exact Hn|apply balance_pods_dm_inv; exact Hn]. }
   destruct (if is_nil (node_targets tbl) then _ else _) as [[evs1 st1] dn]. cbn [snd] in H1.
   set (pst0 := (init_umap true tbl, prod_avail (dims c) tbl (snd st1))).
-  assert (dmap_inv c true h (snd (if is_nil (prod_targets tbl) then ([], pst0, snd ds)
+  assert (dmap_inv true h (snd (if is_nil (prod_targets tbl) then ([], pst0, snd ds)
             else balance_pods c true (prod_targets tbl) pabn pst0 (init_umap true tbl) (snd ds)))) as H2.
   { destruct (is_nil (prod_targets tbl)); [exact Hp|apply balance_pods_dm_inv; exact Hp]. }
   destruct (if is_nil (prod_targets tbl) then _ else _) as [[evs2 st2] dp]. cbn [snd] in *.
@@ -181,29 +188,29 @@ Proof.
 Qed.
 
 (* ---------------------------------------------------------------- filterRealAbnormalNodes *)
-Lemma filter_abnormal_inv c prod h t src :
+Lemma filter_abnormal_inv prod h t src :
   NoDup (map rid src) -> (forall r, In r src -> was_src prod (rid r) t = true) ->
   forall m,
     (forall x d, dget x m = Some d ->
-       (In x (map rid src) -> det_inv c prod h x d) /\
-       (~ In x (map rid src) -> det_inv c prod (t :: h) x d)) ->
-    dmap_inv c prod (t :: h) (snd (filter_abnormal c src m)) /\
-    forall r, In r (fst (filter_abnormal c src m)) -> cK c <= count_src prod (rid r) h.
+       (In x (map rid src) -> det_inv prod h x d) /\
+       (~ In x (map rid src) -> det_inv prod (t :: h) x d)) ->
+    dmap_inv prod (t :: h) (snd (filter_abnormal c src m)) /\
+    forall r, In r (fst (filter_abnormal c src m)) -> cK c <= mu prod (rid r) h.
 Proof.
   induction src as [|a s IH]; intros Hnd Hsrc m Hm; cbn [filter_abnormal].
   - split; [|intros r []]. intros x d Hd. apply (Hm x d Hd). intros [].
   - cbn [map] in Hnd. inversion Hnd as [|? ? Hni Hnd']; subst.
     set (d0 := match dget (rid a) m with Some d => d | None => mkDet (cK c) (cKn c) false 0 0 end).
-    assert (det_inv c prod h (rid a) d0) as Hd0.
+    assert (det_inv prod h (rid a) d0) as Hd0.
     { unfold d0. destruct (dget (rid a) m) as [d|] eqn:E.
       - apply (Hm _ _ E). left; reflexivity.
-      - unfold det_inv. cbn [dK dst dA]. pose proof (count_src_nonneg prod (rid a) h).
+      - unfold det_inv. cbn [dK dst dA]. pose proof (mu_nonneg prod (rid a) h).
         split; [reflexivity|]. split; intros; [lia|discriminate]. }
-    destruct (mark_abn_inv c prod h t (rid a) d0 Hd0 (Hsrc a (or_introl eq_refl))) as [Hd1 Hg].
+    destruct (mark_abn_inv prod h t (rid a) d0 Hd0 (Hsrc a (or_introl eq_refl))) as [Hd1 Hg].
     set (d1 := mark_abn d0) in *.
     assert (forall x d, dget x (dset (rid a) d1 m) = Some d ->
-              (In x (map rid s) -> det_inv c prod h x d) /\
-              (~ In x (map rid s) -> det_inv c prod (t :: h) x d)) as Hm1.
+              (In x (map rid s) -> det_inv prod h x d) /\
+              (~ In x (map rid s) -> det_inv prod (t :: h) x d)) as Hm1.
     { intros x d. rewrite dget_dset. destruct (rid a =? x) eqn:E.
       - apply Z.eqb_eq in E. subst x. intros H. inversion H; subst d.
         split; [intros Hin; contradiction|intros _; exact Hd1].
@@ -219,22 +226,28 @@ Proof.
     + apply HI2.
 Qed.
 
-Lemma real_abnormal_inv c prod h t src m :
+Lemma real_abnormal_inv prod h t src m :
   NoDup (map rid src) -> (forall r, In r src -> was_src prod (rid r) t = true) ->
-  dmap_inv c prod h m ->
-  dmap_inv c prod (t :: h) (snd (real_abnormal c src m)) /\
-  (gating c = true -> forall r, In r (fst (real_abnormal c src m)) -> cK c <= count_src prod (rid r) h).
+  (forall x d, dget x m = Some d ->
+     (In x (map rid src) -> det_inv prod h x d) /\
+     (~ In x (map rid src) -> det_inv prod (t :: h) x d)) ->
+  dmap_inv prod (t :: h) (snd (real_abnormal c src m)) /\
+  (gating c = true -> forall r, In r (fst (real_abnormal c src m)) -> cK c <= mu prod (rid r) h).
 Proof.
   intros Hnd Hsrc Hm. unfold real_abnormal. destruct (gating c) eqn:G.
-  - destruct (filter_abnormal_inv c prod h t src Hnd Hsrc m) as [H1 H2].
-    + intros x d Hd. split; intros _; [|apply det_inv_mono]; apply Hm; exact Hd.
-    + split; [exact H1|intros _; exact H2].
-  - cbn [fst snd]. split; [apply dmap_inv_mono; exact Hm|discriminate].
+  - destruct (filter_abnormal_inv prod h t src Hnd Hsrc m Hm) as [H1 H2].
+    split; [exact H1|intros _; exact H2].
+  - cbn [fst snd]. split; [|discriminate]. intros x d Hd. destruct (Hm x d Hd) as [A B].
+    destruct (in_dec Z.eq_dec x (map rid src)) as [Hin|Hn]; [|apply B; exact Hn].
+    apply in_map_iff in Hin. destruct Hin as [r [Hr Hin]]. subst x.
+    destruct (A (in_map rid src r Hin)) as [D1 [D2 D3]].
+    unfold det_inv. rewrite (mu_src _ _ _ _ (Hsrc r Hin)).
+    split; [exact D1|]. split; intros E; [specialize (D2 E)|specialize (D3 E)]; lia.
 Qed.
 
 (* ---------------------------------------------------------------- one round *)
 Lemma src_filter_props tbl prod :
-  tbl_wf tbl ->
+  tbl_wf c tbl ->
   NoDup (map rid (filter (has_cls (src_cls prod)) tbl)) /\
   forall r, In r (filter (has_cls (src_cls prod)) tbl) -> was_src prod (rid r) tbl = true.
 Proof.
@@ -243,38 +256,50 @@ Proof.
   rewrite (find_row_in tbl r Hnd Hr). exact Hc.
 Qed.
 
-Lemma gate_holds_nil c h tbl : gate_holds c h tbl [].
+Definition gate_mu (h : list (list row)) (tbl : list row) (evs : list ev) : Prop :=
+  gating c = true -> forall e, In e evs -> cK c <= mu (ev_prod tbl e) (fst e) h.
+Lemma gate_mu_nil h tbl : gate_mu h tbl [].
 Proof. intros _ e []. Qed.
 
-Lemma process_pool_gate c tbl psize ds h :
-  tbl_wf tbl -> dstate_inv c h ds ->
-  dstate_inv c (tbl :: h) (snd (process_pool c tbl psize ds)) /\
-  gate_holds c h tbl (fst (process_pool c tbl psize ds)).
+(* what must hold of the detector caches when a round over [tbl] starts: the detectors of this
+   round's sources are up to date with the earlier rounds [h], all others already with [tbl :: h] *)
+Definition pre_inv (tbl : list row) (h : list (list row)) (ds : dstate) : Prop :=
+  forall (prod : bool) x d, dget x (if prod then snd ds else fst ds) = Some d ->
+    (In x (map rid (filter (has_cls (src_cls prod)) tbl)) -> det_inv prod h x d) /\
+    (~ In x (map rid (filter (has_cls (src_cls prod)) tbl)) -> det_inv prod (tbl :: h) x d).
+
+Lemma process_pool_gate tbl psize ds h :
+  tbl_wf c tbl -> pre_inv tbl h ds ->
+  dstate_inv (tbl :: h) (snd (process_pool c tbl psize ds)) /\
+  gate_mu h tbl (fst (process_pool c tbl psize ds)).
 Proof.
-  intros Hwf [Hn Hp]. unfold process_pool.
+  intros Hwf Hpre. unfold process_pool.
+  pose proof (Hpre false) as Hn. pose proof (Hpre true) as Hp. cbn [src_cls] in Hn, Hp.
   destruct (is_nil (filter (has_cls cHigh) tbl) && is_nil (filter (has_cls cProdHigh) tbl)) eqn:E1.
-  { cbn [fst snd]. split; [split; apply dmap_inv_mono; assumption|apply gate_holds_nil]. }
+  { apply andb_true_iff in E1. destruct E1 as [Ea Eb]. apply is_nil_true in Ea. apply is_nil_true in Eb.
+    rewrite Ea in Hn. rewrite Eb in Hp. cbn [fst snd].
+    split; [|apply gate_mu_nil]. split; intros x d Hd; [apply (Hn x d Hd)|apply (Hp x d Hd)]; intros []. }
   destruct (src_filter_props tbl false Hwf) as [Hnd1 Hs1].
   destruct (src_filter_props tbl true Hwf) as [Hnd2 Hs2]. cbn [src_cls] in *.
-  destruct (real_abnormal_inv c false h tbl _ (fst ds) Hnd1 Hs1 Hn) as [Hn1 Hg1].
-  destruct (real_abnormal_inv c true h tbl _ (snd ds) Hnd2 Hs2 Hp) as [Hp1 Hg2].
+  destruct (real_abnormal_inv false h tbl _ (fst ds) Hnd1 Hs1 Hn) as [Hn1 Hg1].
+  destruct (real_abnormal_inv true h tbl _ (snd ds) Hnd2 Hs2 Hp) as [Hp1 Hg2].
   pose proof (real_abnormal_in c (filter (has_cls cHigh) tbl) (fst ds)) as Ha.
   pose proof (real_abnormal_in c (filter (has_cls cProdHigh) tbl) (snd ds)) as Hpa.
   destruct (real_abnormal c (filter (has_cls cHigh) tbl) (fst ds)) as [abn dn].
   destruct (real_abnormal c (filter (has_cls cProdHigh) tbl) (snd ds)) as [pabn dp].
   cbn [fst snd] in *.
   destruct (is_nil abn && is_nil pabn).
-  { cbn [fst snd]. split; [split; assumption|apply gate_holds_nil]. }
+  { cbn [fst snd]. split; [split; assumption|apply gate_mu_nil]. }
   destruct (is_nil (filter (has_cls cLow) tbl) && is_nil (filter (has_cls cProdLow) tbl)
             && is_nil (filter (has_cls cBothLow) tbl)).
-  { cbn [fst snd]. split; [split; assumption|apply gate_holds_nil]. }
+  { cbn [fst snd]. split; [split; assumption|apply gate_mu_nil]. }
   set (dn' := reset_nodes _ (reset_nodes _ dn)). set (dp' := reset_nodes _ dp).
-  assert (dmap_inv c false (tbl :: h) dn') as Hn2 by (unfold dn'; do 2 apply reset_nodes_inv; exact Hn1).
-  assert (dmap_inv c true (tbl :: h) dp') as Hp2 by (unfold dp'; apply reset_nodes_inv; exact Hp1).
+  assert (dmap_inv false (tbl :: h) dn') as Hn2 by (unfold dn'; do 2 apply reset_nodes_inv; exact Hn1).
+  assert (dmap_inv true (tbl :: h) dp') as Hp2 by (unfold dp'; apply reset_nodes_inv; exact Hp1).
   destruct (_ <=? cN c).
-  { cbn [fst snd]. split; [split; assumption|apply gate_holds_nil]. }
+  { cbn [fst snd]. split; [split; assumption|apply gate_mu_nil]. }
   destruct (_ =? psize).
-  { cbn [fst snd]. split; [split; assumption|apply gate_holds_nil]. }
+  { cbn [fst snd]. split; [split; assumption|apply gate_mu_nil]. }
   set (abn' := sort_by (score_geb false) abn). set (pabn' := sort_by (score_geb true) pabn).
   assert (forall r, In r abn' -> In r tbl /\ rcls r = cHigh) as Habn.
   { intros r Hr. apply sort_by_in in Hr. apply Ha in Hr. apply filter_In in Hr.
@@ -282,10 +307,10 @@ Proof.
   assert (forall r, In r pabn' -> In r tbl /\ rcls r = cProdHigh) as Hpabn.
   { intros r Hr. apply sort_by_in in Hr. apply Hpa in Hr. apply filter_In in Hr.
     destruct Hr as [Hr Hc]. split; [exact Hr|apply has_cls_true; exact Hc]. }
-  pose proof (efs_dm_inv c (tbl :: h) tbl abn' pabn' (dn', dp') (conj Hn2 Hp2)) as Hinv.
-  assert (gate_holds c h tbl (fst (evict_from_sources c tbl abn' pabn' (dn', dp')))) as Hgate.
+  pose proof (efs_dm_inv (tbl :: h) tbl abn' pabn' (dn', dp') (conj Hn2 Hp2)) as Hinv.
+  assert (gate_mu h tbl (fst (evict_from_sources c tbl abn' pabn' (dn', dp')))) as Hgate.
   { destruct (cdry c) eqn:Hd.
-    - rewrite (efs_dry c tbl abn' pabn' (dn', dp') Hd). apply gate_holds_nil.
+    - rewrite (efs_dry c tbl abn' pabn' (dn', dp') Hd). apply gate_mu_nil.
     - destruct (efs_round c tbl Hwf abn' pabn' (dn', dp') Hd Habn Hpabn) as [H1 _].
       intros G e He. unfold ev_prod. destruct (H1 e He) as [[_ [Hf [r [Hr Hx]]]]|[Ht [r [Hr Hx]]]].
       + rewrite Hf, Hx. apply Hg1; [exact G|]. apply sort_by_in in Hr. exact Hr.
@@ -296,27 +321,128 @@ Proof.
 Qed.
 
 (* ---------------------------------------------------------------- whole histories *)
-Lemma wf_rounds_cons rs t : wf_rounds (rs :: t) = true -> wf_round rs = true /\ wf_rounds t = true.
-Proof. unfold wf_rounds. cbn [forallb]. intros H. apply andb_true_iff in H. exact H. Qed.
+Fixpoint hist_mu (tbls : list (list row * Z)) (obs : list (list ev)) (h : list (list row)) : Prop :=
+  match tbls, obs with
+  | [], [] => True
+  | (tbl, psize) :: rt, evs :: ot =>
+    round_holds c tbl psize evs /\ gate_mu h tbl evs /\ hist_mu rt ot (tbl :: h)
+  | _, _ => False
+  end.
 
-Theorem run_holds c ns : forall rounds ds h,
-  wf_rounds rounds = true -> dstate_inv c h ds ->
-  hist_holds c (tables c ns rounds) (map fst (run c ns rounds ds)) h.
+Variable fx : bool.
+Hypothesis Hpre : forall tbl h ds, tbl_wf c tbl -> dstate_inv h ds -> pre_inv tbl h (pre_round fx tbl ds).
+
+Theorem run_gen_mu ns : forall rounds ds h,
+  wf_rounds rounds = true -> dstate_inv h ds ->
+  hist_mu (tables c ns rounds) (map fst (run_gen fx c ns rounds ds)) h.
 Proof.
-  induction rounds as [|rs t IH]; intros ds h Hwf Hinv; cbn [run tables map hist_holds]; [exact I|].
-  apply wf_rounds_cons in Hwf. destruct Hwf as [Hw1 Hw2].
+  induction rounds as [|rs t IH]; intros ds h Hwf Hinv; cbn [run_gen tables map hist_mu]; [exact I|].
+  unfold wf_rounds in Hwf. cbn [forallb] in Hwf. apply andb_true_iff in Hwf. destruct Hwf as [Hw1 Hw2].
   pose proof (table_wf c ns rs Hw1) as Htw.
-  unfold balance.
-  pose proof (process_pool_round c (table c ns rs) (pool_size c ns rs) ds Htw) as Hr.
-  destruct (process_pool_gate c (table c ns rs) (pool_size c ns rs) ds h Htw Hinv) as [Hi Hg].
-  destruct (process_pool c (table c ns rs) (pool_size c ns rs) ds) as [evs ds'].
-  cbn [map fst snd hist_holds] in *.
+  unfold balance_gen.
+  pose proof (process_pool_round c (table c ns rs) (pool_size c ns rs) (pre_round fx (table c ns rs) ds) Htw) as Hr.
+  destruct (process_pool_gate (table c ns rs) (pool_size c ns rs) (pre_round fx (table c ns rs) ds) h Htw
+              (Hpre _ _ _ Htw Hinv)) as [Hi Hg].
+  destruct (process_pool c (table c ns rs) (pool_size c ns rs) (pre_round fx (table c ns rs) ds)) as [evs ds'].
+  cbn [map fst snd hist_mu] in *.
   split; [exact Hr|]. split; [exact Hg|]. apply IH; assumption.
 Qed.
 
-Lemma dstate_inv_init c : dstate_inv c [] ([], []).
+Lemma dstate_inv_init : dstate_inv [] ([], []).
 Proof. split; intros x d H; discriminate. Qed.
+End Measure.
+
+(* ---------------------------------------------------------------- the repaired variant's forget *)
+Lemma existsb_eqb_in x l : existsb (Z.eqb x) l = true <-> In x l.
+Proof.
+  rewrite existsb_exists. split.
+  - intros [y [Hy E]]. apply Z.eqb_eq in E. subst y. exact Hy.
+  - intros H. exists x. split; [exact H|apply Z.eqb_refl].
+Qed.
+
+Lemma dget_forget src m x :
+  dget x (forget src m) = if existsb (Z.eqb x) (map rid src) then dget x m else None.
+Proof.
+  unfold forget. induction m as [|[k d] t IH]; cbn [filter dget fst].
+  - destruct (existsb _ _); reflexivity.
+  - destruct (existsb (Z.eqb k) (map rid src)) eqn:Ek; cbn [dget].
+    + destruct (k =? x) eqn:E; [|exact IH]. apply Z.eqb_eq in E. subst k. rewrite Ek. reflexivity.
+    + rewrite IH. destruct (k =? x) eqn:E; [|reflexivity]. apply Z.eqb_eq in E. subst k. rewrite Ek. reflexivity.
+Qed.
+
+Lemma dget_forget_some src m x d : dget x (forget src m) = Some d -> In x (map rid src) /\ dget x m = Some d.
+Proof.
+  rewrite dget_forget. destruct (existsb (Z.eqb x) (map rid src)) eqn:E; [|discriminate].
+  intros H. split; [apply existsb_eqb_in; exact E|exact H].
+Qed.
+
+(* ---------------------------------------------------------------- instance 1: all earlier source rounds *)
+Lemma count_det_mono c prod h t x d :
+  det_inv c count_src prod h x d -> det_inv c count_src prod (t :: h) x d.
+Proof.
+  unfold det_inv. rewrite count_src_cons. intros [H1 [H2 H3]].
+  split; [exact H1|]. split; intros H; [specialize (H2 H)|specialize (H3 H)];
+    destruct (was_src prod x t); lia.
+Qed.
+
+Lemma count_pre c fx tbl h ds :
+  tbl_wf c tbl -> dstate_inv c count_src h ds -> pre_inv c count_src tbl h (pre_round fx tbl ds).
+Proof.
+  intros _ [Hn Hp] prod x d Hd.
+  assert (det_inv c count_src prod h x d) as H.
+  { destruct fx; cbn [pre_round fst snd] in Hd.
+    - destruct prod; apply dget_forget_some in Hd; destruct Hd as [_ Hd]; [apply Hp|apply Hn]; exact Hd.
+    - destruct prod; [apply Hp|apply Hn]; exact Hd. }
+  split; intros _; [exact H|apply count_det_mono; exact H].
+Qed.
+
+Lemma hist_mu_count c : forall tbls obs h, hist_mu c count_src tbls obs h <-> hist_holds c tbls obs h.
+Proof.
+  induction tbls as [|[tbl ps] t IH]; intros [|evs ot] h; cbn [hist_mu hist_holds]; try tauto.
+  rewrite IH. unfold gate_mu, gate_holds. tauto.
+Qed.
+
+(* both variants satisfy the property with the counting gate *)
+Theorem main_holds_gen fx c ns rounds :
+  wf_rounds rounds = true -> C18_holds c ns rounds (map fst (run_gen fx c ns rounds ([], []))).
+Proof.
+  intros H. apply hist_mu_count.
+  apply (run_gen_mu c count_src count_src_nonneg count_src_src fx (count_pre c fx) ns rounds ([], []) [] H).
+  apply dstate_inv_init.
+Qed.
 
 Theorem main_holds c ns rounds :
   wf_rounds rounds = true -> C18_holds c ns rounds (map fst (run c ns rounds ([], []))).
-Proof. intros H. apply run_holds; [exact H|apply dstate_inv_init]. Qed.
+Proof. apply main_holds_gen. Qed.
+
+(* ---------------------------------------------------------------- instance 2: consecutive rounds *)
+Lemma streak_pre c tbl h ds :
+  tbl_wf c tbl -> dstate_inv c streak_src h ds -> pre_inv c streak_src tbl h (pre_round true tbl ds).
+Proof.
+  intros _ [Hn Hp] prod x d Hd. cbn [pre_round fst snd] in Hd.
+  destruct prod; apply dget_forget_some in Hd; destruct Hd as [Hin Hd]; cbn [src_cls];
+    (split; [intros _|intros Hn'; contradiction]); [apply Hp|apply Hn]; exact Hd.
+Qed.
+
+Fixpoint strict_hist_holds (c : cfg) (tbls : list (list row * Z)) (obs : list (list ev))
+  (h : list (list row)) : Prop :=
+  match tbls, obs with
+  | (tbl, _) :: rt, evs :: ot => strict_gate_holds c h tbl evs /\ strict_hist_holds c rt ot (tbl :: h)
+  | _, _ => True
+  end.
+
+Lemma hist_mu_streak c : forall tbls obs h, hist_mu c streak_src tbls obs h -> strict_hist_holds c tbls obs h.
+Proof.
+  induction tbls as [|[tbl ps] t IH]; intros [|evs ot] h; cbn [hist_mu strict_hist_holds]; try tauto.
+  intros [_ [H1 H2]]. split; [exact H1|apply IH; exact H2].
+Qed.
+
+(* the repaired variant: evicted from only after K immediately preceding source rounds *)
+Theorem strict_holds_fixed c ns rounds :
+  wf_rounds rounds = true ->
+  strict_hist_holds c (tables c ns rounds) (map fst (run_gen true c ns rounds ([], []))) [].
+Proof.
+  intros H. apply hist_mu_streak.
+  apply (run_gen_mu c streak_src streak_src_nonneg streak_src_src true (streak_pre c) ns rounds ([], []) [] H).
+  apply dstate_inv_init.
+Qed.
